@@ -83,6 +83,12 @@ func (u *Unit) branch(st *State, cond string, thenK, elseK func(*State)) {
 }
 
 func (u *Unit) ghostAt(st *State, anchor string, pos token.Pos) {
+	u.ghostAtWith(st, anchor, pos, nil)
+}
+
+// ghostAtWith runs the ghost statements attached to an anchor; extra names (e.g. ret, ret0.. for the value of the call an
+// "after" anchor follows) are visible in them.
+func (u *Unit) ghostAtWith(st *State, anchor string, pos token.Pos, extra map[string]Value) {
 	if u.c == nil {
 		return
 	}
@@ -93,11 +99,30 @@ func (u *Unit) ghostAt(st *State, anchor string, pos token.Pos) {
 	u.reached["ghost "+anchor] = true
 	for _, ga := range gas {
 		sev := u.specEv(st, pos, u.name+" ghost at "+anchor)
+		for k, v := range extra {
+			sev.binds[k] = v
+		}
 		if ga.Lemma != nil {
 			u.useLemma(st, sev, ga.Lemma)
 			continue
 		}
 		v := sev.expr(ga.RHS)
+		if id, ok := ga.LHS.(*ast.Ident); ok {
+			// a name that is neither a ghost variable nor a program variable introduces a ghost local
+			if _, isGhost := u.eng.cs.Ghosts[id.Name]; !isGhost {
+				_, isLet := st.lets[id.Name]
+				var obj types.Object
+				if u.pkg != nil && pos.IsValid() {
+					if sc := u.pkg.Types.Scope().Innermost(pos); sc != nil {
+						_, obj = sc.LookupParent(id.Name, pos)
+					}
+				}
+				if isLet || obj == nil {
+					st.lets[id.Name] = v
+					continue
+				}
+			}
+		}
 		lv := sev.lvalue(ga.LHS)
 		if lv == nil {
 			// new ghost local
@@ -304,6 +329,9 @@ func (u *Unit) execLit(st *State, lit *ast.FuncLit, args []Value, pos token.Pos,
 	}
 	fr.retK = k
 	st.frames = append(st.frames, fr)
+	if ord, ok := u.litOrd[lit]; ok {
+		u.ghostAt(st, fmt.Sprintf("lit %d entry", ord), lit.Body.Lbrace+1)
+	}
 	c := &Ctl{brk: map[string]func(*State){}, cont: map[string]func(*State){}}
 	c.ret = func(s2 *State, vals []Value) { u.exitFrame(s2, vals) }
 	u.block(st, lit.Body.List, c, func(s2 *State) { u.exitFrame(s2, nil) })
@@ -703,12 +731,12 @@ func (u *Unit) havocLoop(st *State, body ast.Node, extra []ast.Node, ls *LoopSpe
 			writes = true
 		case *ast.AssignStmt:
 			for _, l := range x.Lhs {
-				if _, ok := ast.Unparen(l).(*ast.Ident); !ok {
+				if u.isHeapTarget(l) {
 					writes = true
 				}
 			}
 		case *ast.IncDecStmt:
-			if _, ok := ast.Unparen(x.X).(*ast.Ident); !ok {
+			if u.isHeapTarget(x.X) {
 				writes = true
 			}
 		case *ast.SendStmt, *ast.UnaryExpr:
@@ -719,8 +747,28 @@ func (u *Unit) havocLoop(st *State, body ast.Node, extra []ast.Node, ls *LoopSpe
 		}
 		return true
 	})
-	if u.c != nil && len(u.c.GhostAt) > 0 {
-		writes = true
+	defer u.assumeTypeInvs(st)
+	if u.c != nil && len(u.c.GhostAt) > 0 && !writes {
+		// ghost variables assigned at anchors may change in the body
+		for _, gas := range u.c.GhostAt {
+			for _, ga := range gas {
+				e := ga.LHS
+				for e != nil {
+					if ix, ok := e.(*ast.IndexExpr); ok {
+						e = ix.X
+						continue
+					}
+					break
+				}
+				if id, ok := e.(*ast.Ident); ok {
+					if g, ok := u.eng.cs.Ghosts[id.Name]; ok {
+						sev := u.specEv(st, pos, "havoc ghost")
+						gv := sev.ghostVar(g)
+						u.havocFam(st, "G:"+g.Name, gv.S)
+					}
+				}
+			}
+		}
 	}
 	if writes {
 		u.havocHeap(st, "loop body")
@@ -1395,4 +1443,27 @@ func (u *Unit) finishFrame(st *State) {
 	}
 	// outermost frame: check postconditions
 	u.checkExit(st, fr)
+}
+
+// isHeapTarget: does the assignment target denote heap memory (through a pointer, slice or map) rather than a local?
+func (u *Unit) isHeapTarget(e ast.Expr) bool {
+	info := u.pkg.TypesInfo
+	for {
+		switch x := ast.Unparen(e).(type) {
+		case *ast.Ident:
+			if obj, ok := info.ObjectOf(x).(*types.Var); ok && obj.Parent() != nil && obj.Pkg() != nil && obj.Parent() == obj.Pkg().Scope() {
+				return true // package-level variable
+			}
+			return false
+		case *ast.SelectorExpr:
+			if t := info.TypeOf(x.X); t != nil {
+				if _, ok := t.Underlying().(*types.Pointer); ok {
+					return true
+				}
+			}
+			e = x.X
+		default:
+			return true
+		}
+	}
 }
